@@ -237,6 +237,17 @@ namespace
         }
         void configure(const sim::Params& p) { max_ops = p.u64("max_ops", 40); }
         uint64_t shrink_budget() const { return 20000; }
+        // "process start" is part of this simulation: violation candidates are confirmed, shrunk and reported in pristine processes, and a
+        // candidate that needs more than one machine lifetime in the same process (state carried across a simulated reboot) is an artefact
+        bool pristine_confirmation() const { return true; }
+        bool spans_several_lifetimes(const Plan& p) const
+        {
+            // ops that precede the first boot run on the implicit power-on configuration: that is a lifetime of its own
+            size_t lifetimes = !p.empty() && p[0].kind != OP_BOOT ? 1 : 0;
+            for (const Op& op : p)
+                lifetimes += op.kind == OP_BOOT;
+            return lifetimes > 1;
+        }
 
         // stub fidelity: a pass-through source must give the same report as no source at all
         void startup_selftest()
@@ -804,6 +815,26 @@ namespace
         std::vector<Plan> simpler(const Plan& p)
         {
             std::vector<Plan> out;
+            // one machine lifetime at a time: a boot with the ops that follow it up to the next boot
+            if (spans_several_lifetimes(p))
+            {
+                if (p[0].kind != OP_BOOT)
+                {
+                    Plan q;
+                    for (size_t k = 0; k < p.size() && p[k].kind != OP_BOOT; ++k)
+                        q.push_back(p[k]);
+                    out.push_back(q);
+                }
+                for (size_t i = 0; i < p.size(); ++i)
+                    if (p[i].kind == OP_BOOT)
+                    {
+                        Plan q;
+                        q.push_back(p[i]);
+                        for (size_t k = i + 1; k < p.size() && p[k].kind != OP_BOOT; ++k)
+                            q.push_back(p[k]);
+                        out.push_back(q);
+                    }
+            }
             auto push_cfg = [&](size_t i, const Cfg& c)
             {
                 Cfg cc = c;
